@@ -105,6 +105,21 @@ theorem classify_partition (F : Fmt) (b : Nat) :
   · right; left; simp [h]
   · left; simp [h, Nat.lt_asymm h, Nat.ne_of_gt h]
 
+/-! ### order -/
+
+/-- the integer key used by `lt`, fmin, fmax and nextafter is the order of the values: for non-NaN, non-infinite
+    patterns `key x < key y ↔ value x < value y` (values as signed multiples of `2^-K`), and likewise for `=`
+    (both zeros have key 0 and value 0) -/
+theorem key_is_value_order (F : Fmt) (hE : 3 ≤ F.ebits) (x y : Nat) (hx : F.abs x < F.inf) (hy : F.abs y < F.inf) :
+    (F.key x < F.key y ↔ F.smag x < F.smag y) ∧ (F.key x = F.key y ↔ F.smag x = F.smag y) :=
+  ⟨key_lt_iff_smag_lt F hE x y hx hy, key_eq_iff_smag_eq F hE x y hx hy⟩
+example : b32.abs 0xBF800000 < b32.inf ∧ b32.abs 0x00000001 < b32.inf := by decide   -- -1.0f and denorm_min
+
+/-- finite magnitude patterns are ordered like their values, and distinct patterns have distinct values -/
+theorem mag_strict_mono (F : Fmt) (hE : 3 ≤ F.ebits) (a a' : Nat) (h : a < a') (ha' : a' < F.inf) :
+    F.mag a < F.mag a' := mag_strictMono F hE a a' h ha'
+example : (0x3F800000 : Nat) < 0x3F800001 ∧ (0x3F800001 : Nat) < b32.inf := by decide
+
 /-! ### sign manipulation, fmin/fmax, nextafter; tetl's own algorithms -/
 
 open Fmt
